@@ -16,13 +16,14 @@ type mutantSpec struct {
 	Name           string `json:"name"`
 	Expect         string `json:"expect_key_contains"`
 	ExpectDetected *bool  `json:"expect_detected,omitempty"`
+	Neutral        bool   `json:"neutral,omitempty"` // a behaviour-preserving edit: the check must stay silent
 	Note           string `json:"note,omitempty"`
 	patch          string
 }
 
 type mutantResult struct {
 	Spec     mutantSpec
-	Status   string // detected | missed | known-miss | skipped-no-apply | skipped-no-compile
+	Status   string // detected | missed | known-miss | silent | false-alarm | known-false-alarm | skipped-no-apply | skipped-no-compile
 	Reported string
 }
 
@@ -99,6 +100,29 @@ func runMutant(self, id, repo, verif string, m mutantSpec) mutantResult {
 	c := exec.Command(self, "check", id, "--tier", "quick", "--repo", src, "--verif", vd)
 	c.Env = append(env, "VERIFSA_CHILD=1") // recursion guard: a child never runs the self-test
 	out, _ := c.CombinedOutput()
+	if m.Neutral {
+		// a behaviour-preserving edit: any report is a false alarm of the checker
+		alarm := ""
+		for _, line := range strings.Split(string(out), "\n") {
+			t := strings.TrimSpace(line)
+			if strings.HasPrefix(t, "violated") || strings.HasPrefix(t, "undecided") || strings.HasPrefix(t, "anchor-lost") || strings.HasPrefix(t, "verifsa:") {
+				alarm = t
+				break
+			}
+		}
+		switch {
+		case alarm == "":
+			r.Status = "silent"
+		case m.ExpectDetected != nil && *m.ExpectDetected:
+			r.Status, r.Reported = "known-false-alarm", alarm
+		default:
+			r.Status, r.Reported = "false-alarm", alarm
+		}
+		if len(r.Reported) > 300 {
+			r.Reported = r.Reported[:300]
+		}
+		return r
+	}
 	found := ""
 	for _, line := range strings.Split(string(out), "\n") {
 		t := strings.TrimSpace(line)
